@@ -943,6 +943,54 @@ Proof.
 Qed.
 
 (* ------------------------------------------------------------------ *)
+(* The order in which EndBlock walks a queue is canonical: it depends only on WHICH entries
+   are queued, not on the order of the list that represents the queue in the model (the Go
+   store has no such order; its iterator yields ascending keys).  This is the expressible
+   part of "independent of iteration order". *)
+
+Lemma ctxid_leb_trans a b c : ctxid_leb a b = true -> ctxid_leb b c = true -> ctxid_leb a c = true.
+Proof. unfold ctxid_leb. destruct a, b, c; cbn [fst snd]. lia. Qed.
+
+Lemma ctxid_leb_antisym a b : ctxid_leb a b = true -> ctxid_leb b a = true -> a = b.
+Proof.
+  unfold ctxid_leb. destruct a as [a1 a2], b as [b1 b2]; cbn [fst snd]. intros H1 H2.
+  assert (a1 = b1 /\ a2 = b2) as [-> ->] by lia. reflexivity.
+Qed.
+
+Lemma sorted_perm_unique {A} (le : A -> A -> Prop) :
+  (forall a b, le a b -> le b a -> a = b) ->
+  forall l1 l2, StronglySorted le l1 -> StronglySorted le l2 -> Permutation l1 l2 -> l1 = l2.
+Proof.
+  intros Hanti. induction l1 as [|a t IH]; intros l2 S1 S2 P.
+  - apply Permutation_nil in P. now subst.
+  - destruct l2 as [|b t2]; [apply Permutation_sym, Permutation_nil in P; discriminate|].
+    inversion S1 as [|? ? S1t F1]; subst. inversion S2 as [|? ? S2t F2]; subst.
+    assert (E : a = b).
+    { assert (Ha : In a (b :: t2)) by (eapply Permutation_in; [exact P|now left]).
+      assert (Hb : In b (a :: t)) by (eapply Permutation_in; [apply Permutation_sym; exact P|now left]).
+      destruct Ha as [->|Ha]; [reflexivity|]. destruct Hb as [->|Hb]; [reflexivity|].
+      rewrite Forall_forall in F1, F2. apply Hanti; [now apply F1|now apply F2]. }
+    subst b. f_equal. apply IH; try assumption. eapply Permutation_cons_inv; eauto.
+Qed.
+
+Theorem C20_due_canonical (q q' : list (Z * CtxId)) h :
+  Permutation q q' -> due q h = due q' h.
+Proof.
+  intros P.
+  assert (Tr : Relations_1.Transitive (fun a b => ctxid_leb a b = true))
+    by (intros a b c; apply ctxid_leb_trans).
+  apply (sorted_perm_unique (fun a b => ctxid_leb a b = true) ctxid_leb_antisym).
+  - apply Sorted_StronglySorted; [exact Tr|apply C20_due_sorted].
+  - apply Sorted_StronglySorted; [exact Tr|apply C20_due_sorted].
+  - rewrite !C20_due_sorted_perm. apply Permutation_map.
+    clear -P. induction P as [|x l l' P IH|x y l|l l' l'' P1 IH1 P2 IH2]; cbn [filter].
+    + constructor.
+    + destruct (fst x =? h); [now constructor|assumption].
+    + destruct (fst x =? h), (fst y =? h); try apply Permutation_refl. apply perm_swap.
+    + eapply Permutation_trans; eauto.
+Qed.
+
+(* ------------------------------------------------------------------ *)
 (* The hypotheses are satisfiable: a concrete multi-block history with a malformed response
    (slash + refund inside h_respond) and an expiry with slashing (inside EndBlock).
    Owner 10 binds providers 11 (deposit 240) and 12 (deposit 400) to service 1 at price 100;
